@@ -175,7 +175,7 @@ class Agg:
                 if len(self.viols) < 4000:
                     r['_stage'] = stage
                     self.viols.append(r)
-            elif not r.get('capped') and r['run'] % guard_stride == 0:
+            elif not r.get('capped') and not r.get('racy') and r['run'] % guard_stride == 0:
                 self.guard_pool.append({'run': r['run'], 'log_hash': r.get('log_hash'), 'stage': stage})
 
 class Batch:
@@ -649,7 +649,7 @@ def selftest(worlds):
                 for procs in (1, 4, 16):
                     env = dict(st.get('env', {})); env.update(ctx.get('env', {})); env['GOMAXPROCS'] = str(procs)
                     b = Batch(ctx, prop, 'quick', 777, params, binary, env, label='self%d' % procs, keep_all=True).run(n, samples=0)
-                    hashes.append({r['run']: r.get('log_hash') for r in b.results})
+                    hashes.append({r['run']: r.get('log_hash') for r in b.results if not r.get('racy')})
                 diff = [r for r in hashes[0] if not (hashes[0][r] == hashes[1].get(r) == hashes[2].get(r))]
                 print('selftest %s/%s: %d runs x 3 processes, %d mismatches' % (prop, st['name'], len(hashes[0]), len(diff)))
                 if diff:
